@@ -41,9 +41,11 @@ NB_PEG = [
     ('nb_peg', 'nb_peg_predmut', 'PUSH(a) ~ &(POP ~ PUSH(b)) ~ !(DROP ~ c) ~ POP; all strings<=6 chars over {a,b,c}', 'q'),
     ('nb_peg', 'nb_peg_repminfail', '((PUSH(a) ~ (PUSH(b) ~ c){2,}) | a) ~ PEEK_ALL; all strings<=8 chars over {a,b,c}', 'q'),
     ('nb_peg', 'nb_peg_repmmfail', '((PUSH(a) ~ (PUSH(b) ~ c){2,3}) | a) ~ PEEK_ALL; all strings<=8 chars over {a,b,c}', 'q'),
+    ('nb_peg', 'nb_peg_repnoprogress', 'PUSH(a) ~ PUSH(a)? ~ DROP{2} ~ b ~ PEEK_ALL (an element that consumes no input); all strings<=7 chars over {a,b,c}', 'q'),
+    ('nb_peg', 'nb_peg_repnullable', '(a*){2,3} ~ PUSH(b)? ~ DROP{1,2} (an element that may match the empty string); all strings<=7 chars over {a,b,c}', 'q'),
 ]
 NB_PEG = [(t[0], t[1], t[2], 'Q') for t in NB_PEG] + [(t[0], t[1], t[2] + ' — bound raised by 3 characters', 't', {'VERIF_NB_EXTRA': '3'}) for t in NB_PEG]
-NB_PEG_STACK = [t for t in NB_PEG if t[1] in ('nb_peg_push_pop', 'nb_peg_pred', 'nb_peg_rep_choice', 'nb_peg_slice', 'nb_peg_bal', 'nb_peg_optpush', 'nb_peg_reppush', 'nb_peg_repbal', 'nb_peg_predmut', 'nb_peg_repminfail', 'nb_peg_repmmfail')]
+NB_PEG_STACK = [t for t in NB_PEG if t[1] in ('nb_peg_push_pop', 'nb_peg_pred', 'nb_peg_rep_choice', 'nb_peg_slice', 'nb_peg_bal', 'nb_peg_optpush', 'nb_peg_reppush', 'nb_peg_repbal', 'nb_peg_predmut', 'nb_peg_repminfail', 'nb_peg_repmmfail', 'nb_peg_repnoprogress', 'nb_peg_repnullable')]
 NB_SLICES = ('nb_slices', 'nb_slices', 'all stacks of depth<=4 over {a,bb} x all PEEK[a..b], PEEK[a..] with a,b in -6..=6 x all inputs<=5 chars', 'q')
 NB_PEG_D1 = ('nb_peg', 'nb_peg_d1', 'PUSH(a) ~ ((POP? ~ b) | PEEK); all strings<=6 chars over {a,b}', 'q')
 NB_GEN = ('derive:nb_gen', 'nb_gen_vs_pest', 'generated parser vs pest: 32 rules (all kinds/operators, built-ins, stack slices) x all strings<=5 chars over 3 alphabets', 'Q')
@@ -113,7 +115,7 @@ PROPS = {
         'verus': ['wrappers', 'rules'],
         'expanded': True,
         'kani': [],
-        'native': [NB_GEN, NB_GEN_T, NB_GEN_SUB, NB_GEN_SUB_T],
+        'native': [NB_GEN, NB_GEN_T, NB_GEN_SUB, NB_GEN_SUB_T, NB_GEN_SUB_REL],
         'assumptions': [],
     },
     'C05': {
